@@ -94,8 +94,39 @@ func (p *lprofile) usesExhaustive() bool {
 	return true
 }
 
+// big cases: shapes that need size to exist (> 65535 nodes, 257-bit nodes two
+// levels deep, short tables of size 8-10, leaf arrays beyond 1 MiB). A few in
+// the quick tier, more in thorough; skipped in the race pass.
+func numBig(tier string) int {
+	if tier == "thorough" {
+		return 24
+	}
+	return 3
+}
+
+func genBig(r *RNG, j int) KeySet {
+	switch j % 3 {
+	case 0:
+		var k []string
+		n := r.Range(66000, 80000)
+		for i := 0; i < n; i++ {
+			k = append(k, string(r.Bytes(r.Range(4, 9))))
+		}
+		return KeySet{"big:uniform-70k", sortUniq(k)}
+	case 1:
+		switch r.Intn(3) {
+		case 0:
+			return KeySet{"big:repeats-60x2400", genRepeats(r, 2400, 60, 3)}
+		case 1:
+			return KeySet{"big:repeats-84x25000", genRepeats(r, 25000, 84, 3)}
+		}
+		return KeySet{"big:repeats-120x48000", genRepeats(r, 48000, 120, 3)}
+	}
+	return KeySet{"big:nibble-dense-30k", genNibbleDense(r, 30000)}
+}
+
 func (p *lprofile) numCases(tier string) int {
-	n := len(directedKeySets()) * 2
+	n := len(directedKeySets())*2 + numBig(tier)
 	if p.usesExhaustive() {
 		n += exhNumChunks(tier)
 	}
@@ -122,6 +153,18 @@ func (p *lprofile) caseAt(ctx *Ctx, idx int) (*LCase, *ExhSpace, [][]int) {
 		return &LCase{Family: ks.Family, Keys: ks.Keys, Vals: genVals(r, kind, len(ks.Keys), style), QMax: p.qmax, R: r}, nil, nil
 	}
 	idx -= len(dir) * 2
+	if idx < numBig(ctx.Tier) {
+		if ctx.BuildMode == "race" {
+			return &LCase{Family: "big:skipped-in-race-pass", Keys: nil, Vals: genVals(r, "none", 0, 0), QMax: p.qmax, R: r}, nil, nil
+		}
+		ks := genBig(r, idx)
+		kind := p.pickKind(r)
+		if idx%3 == 2 && p.kinds == nil {
+			kind = "str16"
+		}
+		return &LCase{Family: ks.Family, Keys: ks.Keys, Vals: genVals(r, kind, len(ks.Keys), []int{0, 1, 4}[r.Intn(3)]), QMax: p.qmax, R: r}, nil, nil
+	}
+	idx -= numBig(ctx.Tier)
 	if p.usesExhaustive() {
 		nc := exhNumChunks(ctx.Tier)
 		if idx < nc {
@@ -990,7 +1033,7 @@ func lookupCheckDef(prop string, rule string, gates func(tier string, m *Merged)
 	if p.raceCases > 0 {
 		def.RaceCases = func(tier string) int {
 			if tier == "thorough" {
-				return len(directedKeySets())*2 + p.raceCases
+				return len(directedKeySets())*2 + numBig(tier) + p.raceCases
 			}
 			return 0
 		}
@@ -1029,7 +1072,7 @@ var _ = encode.I32{}
 func init() {
 	commonShapes := []string{"shape:with_257bit_nodes", "shape:with_257bit_below_root", "shape:with_17bit_nodes", "shape:with_short_nodes",
 		"shape:with_straddling_short", "shape:with_end_of_key_label", "shape:with_step_ge256", "shape:with_halfbyte_prefix", "shape:with_aligned_prefix",
-		"instances:fresh", "instances:loaded", "instances:proto-loaded"}
+		"instances:fresh", "instances:loaded", "instances:proto-loaded", "shape:nodes_gt_65535"}
 	register(lookupCheckDef("C01",
 		"case = (key list, value list+encoder); each case is run under all 16 option sets on fresh, Unmarshal-loaded and (rotating) proto.Unmarshal-loaded instances; oracle: Get/GetID on every retained key; non-trivial = at least 2 retained keys (so at least one inner node); distinct by hash of keys and encoded values",
 		shapeGates(append([]string{"shape:with_varlen_leaves", "shape:with_empty_leaves", "shape:with_single_label_inner", "cases:with_dropped_keys"}, commonShapes...)...)))
